@@ -140,6 +140,11 @@ type c14ArrScen struct {
 	RwQoS     *byte `json:"rw_qos,omitempty"`
 	RwRetain  *bool `json:"rw_retained,omitempty"`
 	Replace   bool  `json:"replace,omitempty"` // req.Message = &copy instead of editing in place
+	// Redeliver (QoS 2 only, exchange still open after PUBREC): the publisher sends the same PUBLISH again with DUP=1 and
+	// the same packet identifier before PUBREL - 1: on the same connection, 2: after a reconnect that resumes its session.
+	// It is the same event: the hook must not fire again. Flip: if it does fire again, its verdict is "accept" now.
+	Redeliver int  `json:"redeliver,omitempty"`
+	Flip      bool `json:"flip,omitempty"`
 }
 
 type c14WillScen struct {
@@ -1016,6 +1021,14 @@ func genC14Arr(region string) func(t *rapid.T) c14DecScen {
 		if region == "topic" {
 			a.Verdict, a.RwTopic, a.IterTopic = "rewrite", true, false
 		}
+		if region == "redeliver" {
+			a.QoS = 2
+			s.V = rapid.SampledFrom([]int{3, 4, 5}).Draw(t, "v_redeliver")
+		}
+		if a.QoS == 2 && (region == "redeliver" || rapid.IntRange(0, 2).Draw(t, "redeliver") > 0) {
+			a.Redeliver = rapid.IntRange(1, 2).Draw(t, "redeliver_how")
+			a.Flip = rapid.IntRange(0, 3).Draw(t, "flip") > 0
+		}
 		if retained {
 			a.Retain = rapid.IntRange(0, 3).Draw(t, "retain") != 0
 			a.Empty = a.Retain && rapid.IntRange(0, 4).Draw(t, "empty") == 0
@@ -1039,8 +1052,11 @@ func runC14Arr(s c14DecScen, c *ev.Case) *ev.Violation {
 		if atomic.LoadInt32(&armed) == 0 {
 			return nil
 		}
-		atomic.AddInt32(&calls, 1)
-		switch a.Verdict {
+		verdict := a.Verdict
+		if atomic.AddInt32(&calls, 1) > 1 && a.Flip {
+			verdict = "accept"
+		}
+		switch verdict {
 		case "error":
 			return a.Err.err()
 		case "drop":
@@ -1089,11 +1105,24 @@ func runC14Arr(s c14DecScen, c *ev.Case) *ev.Violation {
 		}
 		subs = append(subs, cl)
 	}
-	pub, ack, err := b.Connect(fixture.ConnectOpts{ID: "pub", V: ver(s.V), CleanStart: true})
+	// a v5 PUBREC with a failing reason code ends the QoS 2 exchange: the identifier is free again, a second PUBLISH
+	// with it is a new event
+	redeliver := a.Redeliver
+	if a.QoS != 2 || (s.V == 5 && a.Verdict == "error") {
+		redeliver = 0
+	}
+	pubOpts := fixture.ConnectOpts{ID: "pub", V: ver(s.V), CleanStart: true}
+	if redeliver == 2 {
+		pubOpts.CleanStart = s.V == 5 // v3: clean session 0 = persistent session
+		if s.V == 5 {
+			pubOpts.Props = &mw.Props{SessionExpiry: u32p(1000)}
+		}
+	}
+	pub, ack, err := b.Connect(pubOpts)
 	if err != nil || ack.ReasonCode != 0 {
 		return harnessErr("publisher connect: %v %v", ack, err)
 	}
-	defer pub.Kill()
+	defer func() { pub.Kill() }()
 
 	store := map[string]rMsg{}
 	if a.OldOrig {
@@ -1128,9 +1157,54 @@ func runC14Arr(s c14DecScen, c *ev.Case) *ev.Violation {
 	if a.QoS > 0 {
 		pk.PacketID = 77
 	}
-	pack, err := pub.Publish(pk)
-	if err != nil {
-		return ev.Violf("C14.arrived-ack", "PUBLISH not acknowledged: %v", err)
+	var pack *mw.Packet
+	if redeliver == 0 {
+		pack, err = pub.Publish(pk)
+		if err != nil {
+			return ev.Violf("C14.arrived-ack", "PUBLISH not acknowledged: %v", err)
+		}
+	} else {
+		pk.Type = mw.PUBLISH
+		if err := pub.Send(pk); err != nil {
+			return harnessErr("send: %v", err)
+		}
+		if pack, err = pub.WaitAck(mw.PUBREC, pk.PacketID, fixture.DefaultWait); err != nil {
+			return ev.Violf("C14.arrived-ack", "QoS 2 PUBLISH not answered by PUBREC: %v", err)
+		}
+		if redeliver == 2 {
+			// the connection is lost before PUBREL; the client resumes its session and must re-send the PUBLISH (MQTT-4.4.0-1)
+			pub.Kill()
+			if !waitClientGone(b, "pub") {
+				return harnessErr("publisher still registered 5 s after its socket was closed")
+			}
+			ro := pubOpts
+			ro.CleanStart = false
+			np, ack, err := b.Connect(ro)
+			if err != nil || ack.ReasonCode != 0 || !ack.SessionPresent {
+				return ev.Violf("C14.arrived-resume", "publisher reconnect (clean start 0, session expiry 1000 s): %v %v", ack, err)
+			}
+			pub = np
+			c.Label("arrived_redelivered_after_reconnect")
+		} else {
+			c.Label("arrived_redelivered_same_connection")
+		}
+		dupPk := *pk
+		dupPk.Dup = true
+		if err := pub.Send(&dupPk); err != nil {
+			return harnessErr("send: %v", err)
+		}
+		if _, err = pub.WaitAck(mw.PUBREC, pk.PacketID, fixture.DefaultWait); err != nil {
+			return ev.Violf("C14.arrived-ack", "retransmitted QoS 2 PUBLISH (DUP=1, same packet identifier, before PUBREL) not answered by PUBREC: %v", err)
+		}
+		if err := pub.Send(&mw.Packet{Type: mw.PUBREL, PacketID: pk.PacketID}); err != nil {
+			return harnessErr("send: %v", err)
+		}
+		if _, err = pub.WaitAck(mw.PUBCOMP, pk.PacketID, fixture.DefaultWait); err != nil {
+			return ev.Violf("C14.arrived-ack", "PUBREL not answered by PUBCOMP: %v", err)
+		}
+		if a.Flip {
+			c.Label("arrived_redelivered_verdict_changed")
+		}
 	}
 	if err := pub.Ping(fixture.DefaultWait); err != nil {
 		return ev.Violf("C14.ping", "%v", err)
@@ -1138,13 +1212,13 @@ func runC14Arr(s c14DecScen, c *ev.Case) *ev.Violation {
 	atomic.StoreInt32(&armed, 0)
 	feat := []any{"verdict", a.Verdict, "version", s.V, "qos", a.QoS, "retain", a.Retain, "empty", a.Empty,
 		"rw_topic", a.RwTopic, "iter_topic", a.IterTopic, "rw_payload", a.RwPay, "rw_qos", a.RwQoS != nil, "rw_retained", a.RwRetain != nil, "replace", a.Replace,
-		"old_orig", a.OldOrig, "old_new", a.OldNew}
+		"old_orig", a.OldOrig, "old_new", a.OldNew, "redeliver", redeliver, "flip", a.Flip}
 	c.Label("arrived_" + a.Verdict)
 	if a.Verdict != "accept" {
 		c.NonTrivial()
 	}
 	if n := atomic.LoadInt32(&calls); n != 1 {
-		return ev.Violf("C14.arrived-fires-once", "OnMsgArrived ran %d times for one PUBLISH", n).With(feat...)
+		return ev.Violf("C14.arrived-fires-once", "OnMsgArrived ran %d times for one PUBLISH (redelivered before PUBREL: %d)", n, redeliver).With(feat...)
 	}
 
 	// model of the decision
@@ -1464,6 +1538,9 @@ func TestC14DecideUnsubscribe(t *testing.T) { ev.RunN(t, "C14", 0.10, genC14Unsu
 func TestC14DecideArrived(t *testing.T)     { ev.RunN(t, "C14", 0.14, genC14Arr("plain"), runC14Arr) }
 func TestC14DecideArrivedRetained(t *testing.T) {
 	ev.RunN(t, "C14", 0.10, genC14Arr("retained"), runC14Arr)
+}
+func TestC14DecideArrivedRedeliver(t *testing.T) {
+	ev.RunN(t, "C14", 0.08, genC14Arr("redeliver"), runC14Arr)
 }
 func TestC14DecideArrivedTopic(t *testing.T) { ev.RunN(t, "C14", 0.03, genC14Arr("topic"), runC14Arr) }
 func TestC14DecideWill(t *testing.T)         { ev.RunN(t, "C14", 0.10, genC14Will(false), runC14Will) }
